@@ -6,7 +6,7 @@ import Driver.Pfc
 namespace Zvbi.Driver.Idlpfc
 open Zvbi.Driver
 
-abbrev S := Option Zvbi.Idl.St × Option Zvbi.Pfc.St
+abbrev S := Option Zvbi.Idl.StF × Option Zvbi.Pfc.St
 
 def step (st : S) (ws : List String) : S × String :=
   match ws with
